@@ -607,6 +607,37 @@ func (m *Machine) schedule() {
 		var next *Thread
 		if len(normal) == 1 {
 			next = normal[0]
+		} else if m.H.Opts["sched"] == "delay" {
+			// delay bounding: the default scheduler is deterministic (stay on the current thread while it can run, else
+			// round-robin from it); taking the i-th candidate instead costs i delays out of a budget of H.Preempt
+			start := 0
+			if m.cur != nil {
+				start = m.cur.id
+			}
+			var cands []*Thread
+			for k := 0; k < len(m.threads); k++ {
+				t := m.threads[(start+k)%len(m.threads)]
+				for _, r := range normal {
+					if r == t {
+						cands = append(cands, t)
+					}
+				}
+			}
+			room := m.H.Preempt - m.preempts
+			if room < 0 {
+				room = 0
+			}
+			if len(cands) > room+1 {
+				cands = cands[:room+1]
+			}
+			if len(cands) == 1 {
+				next = cands[0]
+			} else {
+				m.stats.SchedPoints++
+				alt := m.decide(len(cands), nil)
+				next = cands[alt]
+				m.preempts += alt
+			}
 		} else {
 			// current thread first (no preemption), then others in id order
 			cands := normal
